@@ -335,6 +335,8 @@ def gen(seed, idx, tier, ctx):
                   'wplan': draw_write_plan(rng, False, dst == 'file')}
             if dst == 'file' and rng.random() < 0.3:
                 it['stale'] = True
+            if dst == 'stdout' and rng.random() < 0.3:
+                it['wplan']['tty'] = True      # stdout is a terminal
             if src == 'file' and dst == 'file' and rng.random() < 0.25:
                 # format a file in place: -o names the input file itself,
                 # possibly under another spelling of its path
@@ -578,6 +580,8 @@ def run_cli_item(item, text, ref, stat, viols, ii, want_bytes=False):
     errs = dict(chan.fired)
     ok = (rc == 0 and exc is None and not exit_flush_failed)
     stat('form_cli_%s_%s' % (item['in'], item['out']))
+    if wplan.get('tty') and item['out'] == 'stdout':
+        stat('cli_stdout_is_a_terminal')
     stat('channel_events', chan.events)
     sig = 'cli|%s>%s|%s|%s|cuts%s|%s' % (
         item['in'], item['out'], enc, ','.join(sorted(item.get('opts')
@@ -947,7 +951,7 @@ PROBES = ['probe_multibyte_char_split_across_reads', 'probe_short_read',
           'form_tstream', 'large_texts',
           'form_cli_file_stdout', 'form_cli_stdin_stdout',
           'form_cli_file_file', 'form_cli_stdin_file', 'cli_invalid_items',
-          'cli_inplace_items',
+          'cli_inplace_items', 'cli_stdout_is_a_terminal',
           'faulted_item_failed_visibly']
 
 COMPONENTS = {
